@@ -45,6 +45,9 @@ package client
 //@   ensures[C15] old(fd.forceFailureErr) != nil && sdkValidate(input) == nil ==> result1 == old(fd.forceFailureErr) && unchangedAll()
 //@ func (*Client).Query
 //@   partial
+//@   callsite[C02,C04,C17] mapItemSliceToDynamodb: arg.items == items
+//@   callsite[C02,C04,C17] mapAttributeValueToDynamodb: arg.attrs == lastKey
+//@   ensures[C02,C04,C17] result1 == nil ==> result0 != nil && result0.Count != nil && *result0.Count == len(items) && len(result0.Items) == len(items) && (result0.LastEvaluatedKey == nil) == (lastKey == nil) && (lastKey != nil ==> dom(result0.LastEvaluatedKey) == dom(lastKey))
 //@   ensures[C15] old(fd.forceFailureErr) != nil && sdkValidate(input) == nil ==> result1 == old(fd.forceFailureErr) && unchangedAll()
 // C02/C04/C17: the search the client performs is the one the request describes (same clauses as on the SDK v2 client)
 //@   opaque (*Table).SearchData
@@ -57,6 +60,9 @@ package client
 //@                arg.input.Limit == old(input.Limit == nil ? 0 : *input.Limit)
 //@ func (*Client).Scan
 //@   partial
+//@   callsite[C02,C04,C17] mapItemSliceToDynamodb: arg.items == items
+//@   callsite[C02,C04,C17] mapAttributeValueToDynamodb: arg.attrs == lastKey
+//@   ensures[C02,C04,C17] result1 == nil ==> result0 != nil && result0.Count != nil && *result0.Count == len(items) && len(result0.Items) == len(items) && (result0.LastEvaluatedKey == nil) == (lastKey == nil) && (lastKey != nil ==> dom(result0.LastEvaluatedKey) == dom(lastKey))
 //@   ensures[C15] old(fd.forceFailureErr) != nil && sdkValidate(input) == nil ==> result1 == old(fd.forceFailureErr) && unchangedAll()
 //@   opaque (*Table).SearchData
 //@   callsite[C02,C04,C17] (*Client).getTable: arg.tableName == old(input.TableName == nil ? "" : *input.TableName)
@@ -293,3 +299,46 @@ package client
 //@   callsite[C16] validateSyntaxExpression#1: arg.regex == expressionAttributeNamesRegex && arg.expressions == flattenNames
 //@   callsite[C16] validateSyntaxExpression#2: arg.regex == expressionAttributeValuesRegex && arg.expressions == flattenValues
 //@   ensures[C16] result == nil && !(ExprText(genericExpressions) == "" && len(exprNames) == 0 && len(exprValues) == 0) ==> len(missingNames) == 0 && len(missingValues) == 0
+
+// ---- C18 / C17: table descriptions handed to the SDK v1 caller ---------------------------------------------
+// Position by position the description reports the internal one: every key schema element its attribute name and key
+// type, every index its name, key schema and item count; the table its name, item count, key schema and index lists.
+//@ func mapKeySchemaToDynamodb
+//@   ensures[C18,C17] len(result) == len(param.ks)
+//@   ensures[C18,C17] forall j int :: {result[j]} 0 <= j && j < len(param.ks) ==> result[j] != nil && result[j].AttributeName != nil && *result[j].AttributeName == param.ks[j].AttributeName && result[j].KeyType != nil && *result[j].KeyType == param.ks[j].KeyType
+//@   loop 1:
+//@     invariant fresh(arr(keySchema)) && arr(keySchema) != 0 && -1 <= rangeindex && rangeindex < len(param.ks) && len(keySchema) == len(param.ks)
+//@     invariant forall j int :: {keySchema[j]} 0 <= j && j <= rangeindex ==> keySchema[j] != nil && fresh(keySchema[j]) && keySchema[j].AttributeName != nil && fresh(keySchema[j].AttributeName) && *keySchema[j].AttributeName == param.ks[j].AttributeName && keySchema[j].KeyType != nil && fresh(keySchema[j].KeyType) && *keySchema[j].KeyType == param.ks[j].KeyType
+//@ func mapGlobalSecondaryIndexDescriptionToDynamodb
+//@   partial
+//@   callsite[C18,C17] mapKeySchemaToDynamodb: 0 <= rangeindex + 1 && rangeindex + 1 < len(input) && arg.ks == input[rangeindex + 1].KeySchema
+//@   ensures[C18,C17] len(result) == len(input)
+//@   ensures[C18,C17] forall j int :: {result[j]} 0 <= j && j < len(input) ==> result[j] != nil && result[j].IndexName == input[j].IndexName && len(result[j].KeySchema) == len(input[j].KeySchema) && result[j].ItemCount != nil && *result[j].ItemCount == input[j].ItemCount
+//@   loop 1:
+//@     invariant fresh(arr(gsi)) && arr(gsi) != 0 && -1 <= rangeindex && rangeindex < len(input) && len(gsi) == len(input)
+//@     invariant forall j int :: {gsi[j]} 0 <= j && j <= rangeindex ==> gsi[j] != nil && fresh(gsi[j]) && gsi[j].IndexName == input[j].IndexName && len(gsi[j].KeySchema) == len(input[j].KeySchema) && gsi[j].ItemCount != nil && fresh(gsi[j].ItemCount) && *gsi[j].ItemCount == input[j].ItemCount
+//@ func mapLocalSecondaryIndexDescriptionToDynamodb
+//@   partial
+//@   callsite[C18,C17] mapKeySchemaToDynamodb: 0 <= rangeindex + 1 && rangeindex + 1 < len(input) && arg.ks == input[rangeindex + 1].KeySchema
+//@   ensures[C18,C17] len(result) == len(input)
+//@   ensures[C18,C17] forall j int :: {result[j]} 0 <= j && j < len(input) ==> result[j] != nil && result[j].IndexName == input[j].IndexName && len(result[j].KeySchema) == len(input[j].KeySchema)
+//@   loop 1:
+//@     invariant fresh(arr(lsi)) && arr(lsi) != 0 && -1 <= rangeindex && rangeindex < len(input) && len(lsi) == len(input)
+//@     invariant forall j int :: {lsi[j]} 0 <= j && j <= rangeindex ==> lsi[j] != nil && fresh(lsi[j]) && lsi[j].IndexName == input[j].IndexName && len(lsi[j].KeySchema) == len(input[j].KeySchema)
+//@ func mapTableDescriptionToDynamodb
+//@   partial
+//@   callsite[C18,C17] mapKeySchemaToDynamodb: arg.ks == td.KeySchema
+//@   callsite[C18,C17] mapGlobalSecondaryIndexDescriptionToDynamodb: arg.input == td.GlobalSecondaryIndexes
+//@   callsite[C18,C17] mapLocalSecondaryIndexDescriptionToDynamodb: arg.input == td.LocalSecondaryIndexes
+//@   ensures[C18,C17] result != nil && fresh(result) && result.TableName != nil && *result.TableName == td.TableName && result.ItemCount != nil && *result.ItemCount == td.ItemCount
+//@   ensures[C18,C17] len(result.KeySchema) == len(td.KeySchema) && len(result.GlobalSecondaryIndexes) == len(td.GlobalSecondaryIndexes) && len(result.LocalSecondaryIndexes) == len(td.LocalSecondaryIndexes)
+
+// ---- C02 / C04 / C17: what a Query or Scan hands back ---------------------------------------------------------
+//@ func mapItemSliceToDynamodb
+//@   partial
+//@   callsite[C02,C04,C17] mapAttributeValueToDynamodb: 0 <= rangeindex + 1 && rangeindex + 1 < len(items) && arg.attrs == items[rangeindex + 1]
+//@   ensures[C02,C04,C17] len(result) == len(items)
+//@   ensures[C02,C04,C17] forall j int :: {result[j]} 0 <= j && j < len(items) ==> (result[j] == nil) == (items[j] == nil) && (items[j] != nil ==> dom(result[j]) == dom(items[j]))
+//@   loop 1:
+//@     invariant fresh(arr(mapAttrs)) && arr(mapAttrs) != 0 && -1 <= rangeindex && rangeindex < len(items) && len(mapAttrs) == rangeindex + 1
+//@     invariant forall j int :: {mapAttrs[j]} 0 <= j && j <= rangeindex ==> (mapAttrs[j] == nil) == (items[j] == nil) && (mapAttrs[j] == nil || fresh(mapAttrs[j])) && (items[j] != nil ==> dom(mapAttrs[j]) == dom(items[j]))
